@@ -322,7 +322,7 @@ func (x *Exec) execUnOp(p *Path, v *ssa.UnOp) bool {
 		}
 		if sv.K == KTerm {
 			sv = x.define(p, "ld", sv)
-			if inv := typeInv(v.Type(), sv.T); inv != "" && sv.S == SVal {
+			if inv := typeInv(v.Type(), sv.T); inv != "" && (sv.S == SVal || (sv.S == SInt && a.Loc.Kind == "slot")) {
 				p.assume(inv)
 			}
 			sv.Go = v.Type()
@@ -624,8 +624,9 @@ func (x *Exec) assertPred(ty types.Type, t string) (string, SV) {
 			return is("VBool"), term("(vbool "+t+")", SBool)
 		}
 	case *types.Slice:
-		return fmt.Sprintf("(and %s (= (slf %s) %d))", is("VSl"), t, flavour(u.Elem())),
-			SV{K: KSlice, Arr: "(sla " + t + ")", Off: "(slo " + t + ")", Len: "(sll " + t + ")", Cap: "(slc " + t + ")", Elem: u.Elem()}
+		// native slices held in interface values are re-based to offset 0 (memory-model symmetry, as for slice parameters)
+		return fmt.Sprintf("(and %s (= (slf %s) %d) (= (slo %s) 0))", is("VSl"), t, flavour(u.Elem()), t),
+			SV{K: KSlice, Arr: "(sla " + t + ")", Off: "0", Len: "(sll " + t + ")", Cap: "(slc " + t + ")", Elem: u.Elem()}
 	case *types.Map:
 		return fmt.Sprintf("(and %s (= (mpf %s) %d))", is("VMp"), t, flavour(u.Elem())), SV{K: KMap, T: "(mpi " + t + ")", MapT: u}
 	case *types.Interface:
